@@ -301,3 +301,20 @@ def hand_format(name: str, rows: list, rng):
             out.append(r)
         return out, "hand:cvrptw_durations"
     return rows, "generator"
+
+
+CROSS_SIZE_ENVS = ["tsp", "cvrp", "sdvrp", "cvrptw", "svrp", "op", "mtvrp"]
+
+
+def cross_size_cfg(cfg: dict, rng):
+    """Configuration of an environment built for ANOTHER size than the instances it will be given.  These
+    environments take every size from the data ("we do not enforce loading from self for flexibility"):
+    cross-size evaluation is ordinary use, and must change nothing."""
+    import copy
+
+    if cfg["env"] not in CROSS_SIZE_ENVS:
+        return None
+    c = copy.deepcopy(cfg)
+    n = cfg["gen"]["num_loc"]
+    c["gen"]["num_loc"] = rng.choice([max(2, n - rng.randint(1, 3)), n + rng.randint(1, 4)])
+    return c
